@@ -1,3 +1,4 @@
 SPECIFICATION Spec
+CONSTANT DefaultConfig <- DefaultConfigVal
 POSTCONDITION Consumed
 CHECK_DEADLOCK FALSE
